@@ -129,3 +129,7 @@ def run(ctx):
     # "never returns to NONE": a resumed run must not re-derive component states from scratch (initialize(False, False) is a no-op)
     from .C15 import r15_1
     r15_1(ctx)
+    # the clauses are read off the per-step *records*: tasks and components must show an absence step the same way (a WORKING
+    # task and its WORKING component are both logged READY; nothing else is altered) -- the display tables of C10
+    from .C10 import r10_3
+    r10_3(ctx)
